@@ -1,5 +1,6 @@
 import IkeModel.GoRt
 import IkeModel.Eap
+import IkeModel.Types
 
 /-! Go objects of packages that `tools/go2lean` does not translate (yet), as the generated
 code sees them: the hand-written model stands in for them (`tools/go2lean/extern.json`). -/
@@ -16,4 +17,9 @@ def EAP_Marshal (e : Eap) : Res Bytes := marshalEap e
 /-- `(*eap.EAP).Unmarshal` (the receiver is replaced by the decoded packet) -/
 def EAP_Unmarshal (_e : Eap) (b : Bytes) : Res Eap := unmarshalEap b
 
+end Ike.GenExt
+
+namespace Ike.GenExt
+/-- `new(message.Transform)` as the registry packages see it -/
+def Transform_zero : Ike.Transform := ⟨0, 0, false, 0, 0, 0, []⟩
 end Ike.GenExt
